@@ -343,8 +343,13 @@ func RangePairs(c *Ctx, rule string) int {
 			case na == nb && len(ta) == len(tb) && len(ta) > 1:
 				n++
 				ok := strings.Join(ta[:len(ta)-1], ",") == strings.Join(tb[:len(tb)-1], ",")
-				r.Check(rule, fmt.Sprintf("%s: DeleteRange over %s positions of one collection", u.Name, shortName(na)), u.Pos(s.Pos), ok,
-					fmt.Sprintf("(%s) vs (%s)", strings.Join(ta, ", "), strings.Join(tb, ", ")))
+				detail := fmt.Sprintf("(%s) vs (%s)", strings.Join(ta, ", "), strings.Join(tb, ", "))
+				if ta[len(ta)-1] == tb[len(tb)-1] {
+					// the same key on both ends (for instance a stop key that is an alias of the start key's slice): an empty range
+					ok = false
+					detail = "start and stop are the same key: the range is empty and nothing is deleted; " + detail
+				}
+				r.Check(rule, fmt.Sprintf("%s: DeleteRange over %s positions of one collection", u.Name, shortName(na)), u.Pos(s.Pos), ok, detail)
 			}
 		}
 	}
